@@ -17,8 +17,17 @@ def _analyse(its, ids, its_ren, ids_ren):
     rc2 = get_rc(rc)
     ctx = [RadiusExpand.extract_k(its, k) for k in range(4)]
     ren = get_rc(its_ren)
+    # history: a renumbered COPY DERIVED FROM THE SAME OBJECT (graph-level attributes travel with it), asked for its contexts
+    # after the original was; mapped back to the original atoms they must be the same contexts
+    import networkx as nx
+    der = nx.relabel_nodes(its, dict(zip(ids, ids_ren)), copy=True)
+    back = {w: v for v, w in zip(ids, ids_ren)}
+    try:
+        dctx = [chem.sub_abs(nx.relabel_nodes(RadiusExpand.extract_k(der, k), back, copy=True), ids) for k in range(4)]
+    except Exception:
+        dctx = [{"nodes": [], "t": [], "edges": [], "top": []} for _ in range(4)]
     case = {"its": before, "rc": chem.sub_abs(rc, ids), "rc2": chem.sub_abs(rc2, ids),
-            "ctx": [chem.sub_abs(c, ids) for c in ctx], "ren": chem.sub_abs(ren, ids_ren)}
+            "ctx": [chem.sub_abs(c, ids) for c in ctx], "ren": chem.sub_abs(ren, ids_ren), "dctx": dctx}
     if chem.its_abs(its, ids) != before:
         raise AssertionError("centre/context extraction modified the ITS")
     return case
